@@ -42,7 +42,7 @@ func numericTypeConverterFunc[T int64 | uint64 | float64](value any) (any, error
 	switch any(n).(type) {
 	case int64:
 		if !bigFloat.IsInt() {
-			return nil, fmt.Errorf("expected an int value, but found numeric value '%s'", bigFloat.String())
+			return nil, fmt.Errorf("expected an int value, but found numeric value '%s'", describeNumber(bigFloat, value))
 		}
 
 		numericValue, _ := bigFloat.Int64()
@@ -50,25 +50,38 @@ func numericTypeConverterFunc[T int64 | uint64 | float64](value any) (any, error
 
 	case uint64:
 		if !bigFloat.IsInt() {
-			return nil, fmt.Errorf("expected a uint value, but found numeric value '%s'", bigFloat.String())
+			return nil, fmt.Errorf("expected a uint value, but found numeric value '%s'", describeNumber(bigFloat, value))
 		}
 
 		numericValue, _ := bigFloat.Int64()
 		if numericValue < 0 {
-			return nil, fmt.Errorf("expected a uint value, but found int64 value '%s'", bigFloat.String())
+			return nil, fmt.Errorf("expected a uint value, but found int64 value '%s'", describeNumber(bigFloat, value))
 		}
 		return uint64(numericValue), nil
 
 	case float64:
 		numericValue, a := bigFloat.Float64()
 		if a == big.Above || a == big.Below {
-			return nil, fmt.Errorf("number cannot be represented as a float64: %s", bigFloat.String())
+			return nil, fmt.Errorf("number cannot be represented as a float64: %s", describeNumber(bigFloat, value))
 		}
 		return numericValue, nil
 
 	default:
 		return nil, fmt.Errorf("unsupported numeric type in numerical parameter type conversion: %T", n)
 	}
+}
+
+// describeNumber renders a number for an error message. big.Float.String() converts to decimal, which
+// takes time quadratic in the decimal exponent: a ten-byte input such as "1e-3000000" would keep a CPU
+// busy for minutes just to build the message. Numbers with an extreme exponent are shown as they were given.
+func describeNumber(f *big.Float, original any) string {
+	const maxBinaryExponent = 1 << 12
+
+	if exp := f.MantExp(nil); exp > maxBinaryExponent || exp < -maxBinaryExponent {
+		return fmt.Sprintf("%v", original)
+	}
+
+	return f.String()
 }
 
 func anyTypeConverterFunc(value any) (any, error) {
